@@ -201,6 +201,40 @@ pub fn run(ctx: &Ctx) {
             }
         }
     }
+    // ---- node_edges == the documented sub-range, for every small node table
+    {
+        let starts: [u16; 6] = [0, 1, 2, 3, 4, u16::MAX];
+        for n in 1..=4usize {
+            let total = starts.len().pow(n as u32);
+            for code in 0..total {
+                for elen in [0usize, 1, 3, 4] {
+                    let mut c = code;
+                    let nodes: Vec<Node> = (0..n).map(|_| { let st = starts[c % starts.len()]; c /= starts.len(); Node { edge_start: st, program_address: ContentAddress([0; 32]) } }).collect();
+                    let p = Predicate { nodes, edges: (0..elen as u16).map(|e| e + 10).collect() };
+                    let id = format!("codec/node-edges/{n}/{code}/{elen}");
+                    if !ctx.want(&id) {
+                        continue;
+                    }
+                    let mut bad = None;
+                    for i in 0..n + 1 {
+                        let want = crate::refsem::node_children(&p, i);
+                        match std::panic::catch_unwind(|| p.node_edges(i).map(|x| x.to_vec())) {
+                            Err(_) => bad = Some(format!("PANIC at node {i}")),
+                            Ok(got) if got != want => bad = Some(format!("node {i}: node_edges {:?} but the documented sub-range is {:?}", got, want)),
+                            Ok(_) => {}
+                        }
+                    }
+                    match bad {
+                        None => ctx.pass(),
+                        Some(d) => ctx.fail(&id, "the edge slice reported for a node is exactly the documented sub-range of the edge list (empty for leaves, None when out of bounds)",
+                            format!("edge_starts {:?} edges {:?}: {d}", p.nodes.iter().map(|x| x.edge_start).collect::<Vec<_>>(), p.edges)),
+                    }
+                }
+            }
+        }
+    }
+    // ---- serde: every public data type survives postcard and JSON round trips; legacy field names are accepted; Display / FromStr
+    serde_round_trips(ctx);
     // ---- hex <-> words
     let ws: Vec<Word> = vec![0, 1, -1, Word::MIN, Word::MAX, 0x0102030405060708, -0x0102030405060708, 0x7fffffff, 1 << 63 - 1];
     let mut seqs: Vec<Vec<Word>> = vec![vec![]];
@@ -238,6 +272,118 @@ pub fn run(ctx: &Ctx) {
         match std::panic::catch_unwind(|| convert::words_from_hex_str(bad).is_ok()) {
             Err(_) => ctx.fail(&id, "conversions never panic", format!("PANIC: words_from_hex_str({bad:?})")),
             Ok(_) => ctx.pass(),
+        }
+    }
+}
+
+fn rt<T: serde::Serialize + serde::de::DeserializeOwned + PartialEq + std::fmt::Debug>(ctx: &Ctx, id: &str, v: &T) {
+    if !ctx.want(id) {
+        return;
+    }
+    let r = std::panic::catch_unwind(std::panic::AssertUnwindSafe(|| {
+        let bin = postcard::to_allocvec(v).map_err(|e| format!("postcard serialise: {e}"))?;
+        let back: T = postcard::from_bytes(&bin).map_err(|e| format!("postcard deserialise: {e}"))?;
+        if &back != v {
+            return Err(format!("postcard round trip gives {:?}", back));
+        }
+        let js = serde_json::to_string(v).map_err(|e| format!("json serialise: {e}"))?;
+        let back: T = serde_json::from_str(&js).map_err(|e| format!("json deserialise of {js}: {e}"))?;
+        if &back != v {
+            return Err(format!("JSON round trip through {js} gives {:?}", back));
+        }
+        Ok::<(), String>(())
+    }));
+    match r {
+        Err(_) => ctx.fail(id, "serde codecs never panic", format!("PANIC on {:?}", v)),
+        Ok(Err(d)) => ctx.fail(id, "every public data type survives a round trip through the binary (postcard) and the human-readable (JSON) serde formats", format!("{:?}: {d}", v)),
+        Ok(Ok(())) => ctx.pass(),
+    }
+}
+
+fn serde_round_trips(ctx: &Ctx) {
+    use essential_types::{contract::{Contract, SignedContract}, predicate::Program, solution::{Solution, SolutionSet}, PredicateAddress, Signature};
+    let words: Vec<Vec<Word>> = vec![vec![], vec![0], vec![-1, Word::MIN, Word::MAX], vec![5, 4]];
+    let mut muts = Vec::new();
+    for k in &words {
+        for v in &words {
+            muts.push(Mutation { key: k.clone(), value: v.clone() });
+        }
+    }
+    for (i, m) in muts.iter().enumerate() {
+        rt(ctx, &format!("codec/serde/mutation/{i}"), m);
+    }
+    let ca = |b: u8| ContentAddress(std::array::from_fn(|i| b.wrapping_add(i as u8)));
+    for (i, a) in [ca(0), ca(0xf0), ContentAddress([0xff; 32])].iter().enumerate() {
+        rt(ctx, &format!("codec/serde/address/{i}"), a);
+        rt(ctx, &format!("codec/serde/predicate-address/{i}"), &PredicateAddress { contract: a.clone(), predicate: ca(i as u8 + 3) });
+        // Display / FromStr
+        let id = format!("codec/display/address/{i}");
+        if ctx.want(&id) {
+            let s = format!("{a}");
+            match s.parse::<ContentAddress>() {
+                Ok(b) if &b == a => ctx.pass(),
+                other => ctx.fail(&id, "Display / FromStr round-trips", format!("{:?} displays as {s} which parses to {:?}", a, other)),
+            }
+        }
+    }
+    let sigs = [Signature([0; 64], 0), Signature(std::array::from_fn(|i| i as u8 * 3), 1), Signature([0xff; 64], 3)];
+    for (i, sg) in sigs.iter().enumerate() {
+        rt(ctx, &format!("codec/serde/signature/{i}"), sg);
+        let id = format!("codec/display/signature/{i}");
+        if ctx.want(&id) {
+            let s = format!("{sg}");
+            match s.parse::<Signature>() {
+                Ok(b) if &b == sg => ctx.pass(),
+                other => ctx.fail(&id, "Display / FromStr round-trips", format!("{:?} displays as {s} which parses to {:?}", sg, other)),
+            }
+        }
+    }
+    let preds: Vec<Predicate> = vec![
+        Predicate { nodes: vec![], edges: vec![] },
+        Predicate { nodes: vec![Node { edge_start: u16::MAX, program_address: ca(1) }], edges: vec![] },
+        Predicate { nodes: vec![Node { edge_start: 0, program_address: ca(2) }, Node { edge_start: u16::MAX, program_address: ca(3) }, Node { edge_start: 1, program_address: ca(4) }], edges: vec![1, 0, 65535] },
+    ];
+    for (i, p) in preds.iter().enumerate() {
+        rt(ctx, &format!("codec/serde/predicate/{i}"), p);
+    }
+    for (i, b) in [vec![], vec![0u8], vec![1, 2, 3, 255, 0, 128]].into_iter().enumerate() {
+        rt(ctx, &format!("codec/serde/program/{i}"), &Program(b));
+    }
+    let sols: Vec<Solution> = vec![
+        Solution { predicate_to_solve: PredicateAddress { contract: ca(1), predicate: ca(2) }, predicate_data: vec![], state_mutations: vec![] },
+        Solution { predicate_to_solve: PredicateAddress { contract: ca(5), predicate: ca(6) }, predicate_data: vec![vec![], vec![1, -2]], state_mutations: muts.iter().take(6).cloned().collect() },
+        Solution { predicate_to_solve: PredicateAddress { contract: ca(7), predicate: ca(8) }, predicate_data: vec![vec![Word::MIN]], state_mutations: vec![muts[1].clone(), muts[4].clone(), muts[3].clone()] },
+    ];
+    for (i, s) in sols.iter().enumerate() {
+        rt(ctx, &format!("codec/serde/solution/{i}"), s);
+    }
+    for (i, ix) in [vec![], vec![0usize], vec![1, 2], vec![2, 1, 0, 1]].into_iter().enumerate() {
+        rt(ctx, &format!("codec/serde/set/{i}"), &SolutionSet { solutions: ix.iter().map(|&k| sols[k].clone()).collect() });
+    }
+    for (i, ix) in [vec![], vec![0usize], vec![2, 1], vec![1, 1, 2]].into_iter().enumerate() {
+        let c = Contract { predicates: ix.iter().map(|&k| preds[k].clone()).collect(), salt: std::array::from_fn(|j| (i * 40 + j) as u8) };
+        rt(ctx, &format!("codec/serde/contract/{i}"), &c);
+        rt(ctx, &format!("codec/serde/signed-contract/{i}"), &SignedContract { contract: c, signature: sigs[i % 3].clone() });
+    }
+    // legacy field names accepted on input
+    for (i, s) in sols.iter().enumerate() {
+        let id = format!("codec/serde/legacy/{i}");
+        if !ctx.want(&id) {
+            continue;
+        }
+        let r = (|| {
+            let js = serde_json::to_string(s).ok()?;
+            let legacy = js.replacen("\"predicate_data\"", "\"decision_variables\"", 1);
+            let back: Solution = serde_json::from_str(&legacy).ok()?;
+            let set_js = serde_json::to_string(&SolutionSet { solutions: vec![s.clone()] }).ok()?;
+            let set_legacy = set_js.replacen("\"solutions\"", "\"data\"", 1);
+            let back_set: SolutionSet = serde_json::from_str(&set_legacy).ok()?;
+            Some(&back == s && back_set.solutions == vec![s.clone()] && legacy != js && set_legacy != set_js)
+        })();
+        if r == Some(true) {
+            ctx.pass();
+        } else {
+            ctx.fail(&id, "the legacy field names (decision_variables, data) are accepted on input", format!("solution {i}: {:?}", r));
         }
     }
 }
